@@ -10,6 +10,7 @@ Operations are JSON-able lists so that histories can be written to replay files:
   ["dattr", path, key]          del f[path].attrs[key]
   ["copy", src, dst]            f.copy(src, dst)
   ["move", src, dst]            f.move(src, dst)
+  ["cds", path, token|None, kw] create_dataset(path, data=..., **kw) with kw from the documented subset (shape, dtype, compression, compression_opts)
   ["at", grouppath, op]         the same operation issued from the sub-group handle f[grouppath]
   ["commit"]                    IH5 only: commit_patch + create_patch (a patch boundary)
   ["reopen", mode]              close (commits) and reopen ("r+" / "a")
@@ -128,7 +129,15 @@ def apply_op(f, op):
     """Apply a data operation to an h5py-like group/file object."""
     k = op[0]
     if k == "at":
-        return apply_op(f[op[1]], op[2])
+        g, sub = f[op[1]], op[2]
+        npath = 2 if sub[0] in ("copy", "move") else 1
+        if isinstance(g, h5py.Group) and any(str(x).startswith("/") for x in sub[1:1 + npath]):
+            # plain h5py reference: absolute paths mean "from the root" whatever the handle; issue the call there with all
+            # paths made absolute (HDF5 1.12 fails with 'message type not found' when H5Ocopy has to create missing parents
+            # of an absolute destination relative to a non-root location -- a library quirk, not tree semantics)
+            sub = [sub[0]] + [abspath(g.name, x) for x in sub[1:1 + npath]] + list(sub[1 + npath:])
+            g = g.file
+        return apply_op(g, sub)
     if k == "set":
         f[op[1]] = mkval(op[2])
     elif k == "grp":
@@ -141,6 +150,9 @@ def apply_op(f, op):
         f[op[1]].attrs[op[2]] = mkval(op[3])
     elif k == "dattr":
         del f[op[1]].attrs[op[2]]
+    elif k == "cds":
+        kw = {a: tuple(b) if isinstance(b, list) else b for a, b in op[3].items()}
+        f.create_dataset(op[1], data=mkval(op[2]) if op[2] is not None else None, **kw)
     elif k == "copy":
         f.copy(op[1], op[2])
     elif k == "move":
